@@ -2,11 +2,15 @@
 """Run a check over several seeds and list the violation signatures that are not known findings (for review)."""
 import json, subprocess, sys, glob, os
 pid=sys.argv[1]; seeds=sys.argv[2:] or ['1','2','3']
+import time
+start=time.time()
 seen={}
 for s in seeds:
     env=dict(os.environ, VERIF_SEED=s)
     subprocess.run(['/verif/check',pid,'quick'],env=env,capture_output=True,text=True)
     for f in glob.glob(f'/verif/replay/{pid}-*.json'):
+        if os.path.getmtime(f) < start:
+            continue  # left over from an earlier run (e.g. a seeded-change trial)
         j=json.load(open(f))
         seen.setdefault(j['signature'], j)
 known={k['signature'] for k in json.load(open('/verif/known_findings.json'))['findings'] if k.get('status','known')=='known'}
